@@ -746,6 +746,9 @@ func (eng *Engine) discharge(obls []*Obligation) {
 			defer func() { <-sem }()
 			o.Script = eng.script(o)
 			to := eng.timeout
+			if o.Kind == "vacuity" && to > 3 {
+				to = 3 // a reachability check only fails when refuted (unsat), which is fast
+			}
 			o.Res = runPortfolio(o.Script, eng.tmpdir, o.Name, to, eng.seed)
 		}(o)
 	}
